@@ -77,7 +77,7 @@ def run(ctx):
         (xt,), _ = transform.expand_transform(tape, **kw)
         return [o.name for o in xt.operations if o.num_params and any(qp.math.requires_grad(d) for d in o.data)], len(tape.trainable_params), len(xt.trainable_params)
 
-    def classify(cfg, spec, default, x=None, train=None):
+    def classify(cfg, spec, default, x=None, train=None, exc=None):
         """mechanism tag (naming only; the verdict is already made):
         * metric_tensor with a trainable PhaseShift-family gate in the (expanded) circuit: its generator is a projector (eigenvalues
           0,1); qp.math.cov_matrix builds kron(eigvals_i, eigvals_j) in observable order but marginalises over the *sorted* wire set
@@ -87,6 +87,11 @@ def run(ctx):
         * quantum_fisher(qnode) when adjoint_metric_tensor's expansion changes the number of trainable gate parameters: the classical
           Jacobian does not match the expanded tape -> 'quantum_fisher:cjac-vs-expanded-tape'"""
         try:
+            if exc is not None and "Input unitary must be of shape" in str(exc) and "metric_tensor" in cfg and x is not None:
+                # a trainable GlobalPhase left by the expansion (SingleExcitationPlus/Minus, FermionicSWAP, ...) has a 1x1 generator on no
+                # wires; the Hadamard-test tape builder wraps it in ControlledQubitUnitary
+                if "GlobalPhase" in expanded_names(qp.metric_tensor, spec, x)[0]:
+                    return "metric-hadamard:trainable-globalphase-generator"
             if "quantum_fisher" in cfg and x is not None:
                 _, n0, n1 = expanded_names(qp.adjoint_metric_tensor, spec, x)
                 if n0 != n1:
@@ -121,7 +126,7 @@ def run(ctx):
             ctx.ev(monitor)
             ctx.violation(monitor, f"{cfg}: {type(e).__name__}: {str(e)[:300]} on an admitted circuit",
                           case={**case, "tb": traceback.format_exc()[-900:]},
-                          mech=classify(cfg, spec, crash_mech(e, cfg.split(":")[0]), x if "qnode" in cfg else None))
+                          mech=classify(cfg, spec, crash_mech(e, cfg.split(":")[0]), x if "qnode" in cfg else None, exc=e))
             return None
         n = gref.shape[0]
         off = gref - np.diag(np.diag(gref))
